@@ -17,6 +17,10 @@ def expand(ops):
         elif o[0] == 'session_nested':
             out.append(('session_set', o[1], o[2], o[3], o[4]))
             out.append(('session_set', o[1], o[2], o[5], o[6]))
+        elif o[0] == 'session_span':
+            out.append(('session_set', o[1], o[2], o[3], o[4]))
+            out.append(('session_set', o[1], o[2], o[5], o[6]))
+            out.append(('session_set', o[1], o[2], o[7], o[8]))
         else:
             out.append(o)
     return out
